@@ -214,6 +214,23 @@ def unjoined_lazy(prog):
     return any(t not in joined and any(o[0] == "lazy" for o in ops) for t, ops in enumerate(ths) if t > 0)
 
 
+def own_inspect_then_dec(prog):
+    """F10 (rest) shape: a thread inspects an Arc and later decrements it (its own inspection is then the only one
+    its decrement is compared with) while another thread inspects too"""
+    ths = threads_of(prog)
+    insp = {"acount", "agetmut", "aunwrap"}
+    dec = {"adrop", "adec", "aunwrap", "agetmut"}
+    for t, ops in enumerate(ths):
+        seen = False
+        for o in ops:
+            if seen and o[0] in dec:
+                if any(p[0] in insp for u, ops2 in enumerate(ths) if u != t for p in ops2):
+                    return True
+            if o[0] in insp:
+                seen = True
+    return False
+
+
 ASSERTS = {"notNotified", "expectedLock", "expectedRead", "expectedWrite"}
 
 SIGNATURES = {
@@ -232,8 +249,7 @@ SIGNATURES = {
     # F7: emptiness test of try_recv / Receiver::drop is not a branch point
     "chan-unbranched-empty-test": lambda p, kind, o: kind in ("missing", "missed_failure") and unbranched_empty_test(p),
     # F10: Inspect is not a dependence for RefDec / RefInc pairs
-    "arc-inspect-not-dependent": lambda p, kind, o: kind in ("missing", "missed_failure")
-    and in_two_threads(p, {"acount"}, {"adrop", "aclone", "adec", "ainc", "aunwrap", "agetmut"}),
+    "arc-inspect-not-dependent": lambda p, kind, o: kind in ("missing", "missed_failure") and own_inspect_then_dec(p),
     # F9: a thread pending on a try-acquire is blocked by another thread's acquisition
     "try-acquire-blocked": lambda p, kind, o: has(p, "trylock", "tryrd", "trywr") and kind == "missing",
     # F5/F6: unpark wakes a thread that is blocked on something else (internal assertion / token spent)
